@@ -385,7 +385,13 @@ def run_impl(pystog, case):
     try:
         with contextlib.redirect_stdout(io.StringIO()):
             if case["mode"] == 1:
-                cli.pystog_cli(json.loads(json.dumps(kwargs)))
+                # the flag form as a user runs it: the flags are on the command line
+                argv_old = sys.argv
+                sys.argv = ["pystog_cli"] + [str(a) for a in build_argv(case, rel)]
+                try:
+                    cli.pystog_cli()
+                finally:
+                    sys.argv = argv_old
             else:
                 # the JSON form as a user runs it: the settings are in a file named on the command line
                 cfg_path = os.path.join(base, "settings.json")
